@@ -1665,8 +1665,10 @@ func (e *Extractor) Document() (*model.Document, []Warning, error) {
 
 		// Detect paragraphs
 		var paragraphs []model.ParagraphInfo
+		var layoutParas []layout.Paragraph
 		if len(lines) > 0 {
 			paraLayout := paraDetector.Detect(lines, width, height)
+			layoutParas = paraLayout.Paragraphs
 			for _, para := range paraLayout.Paragraphs {
 				paragraphs = append(paragraphs, model.ParagraphInfo{
 					BBox:      model.BBox{X: para.BBox.X, Y: para.BBox.Y, Width: para.BBox.Width, Height: para.BBox.Height},
@@ -1678,9 +1680,13 @@ func (e *Extractor) Document() (*model.Document, []Warning, error) {
 
 		// Detect headings
 		var headings []model.HeadingInfo
-		headingResult := headingDetector.DetectFromFragments(fragments, width, height)
+		// Headings and lists are classifications of the paragraphs above (the
+		// same lines): each paragraph ends up in exactly one page element.
+		headingOf := map[int]int{} // paragraph index -> index into headings
+		headingResult := headingDetector.DetectFromParagraphs(layoutParas, width, height)
 		if headingResult != nil {
 			for _, h := range headingResult.Headings {
+				headingOf[h.Index] = len(headings)
 				headings = append(headings, model.HeadingInfo{
 					Level:      int(h.Level),
 					Text:       h.Text,
@@ -1693,20 +1699,36 @@ func (e *Extractor) Document() (*model.Document, []Warning, error) {
 
 		// Detect lists
 		var lists []model.ListInfo
-		listResult := listDetector.DetectFromFragments(fragments, width, height)
+		listOf := map[int]int{} // paragraph index -> index into lists
+		listCandidates := make([]layout.Paragraph, len(layoutParas))
+		copy(listCandidates, layoutParas)
+		for pi := range headingOf {
+			if pi >= 0 && pi < len(listCandidates) {
+				listCandidates[pi] = layout.Paragraph{Index: pi} // a heading is not a list item
+			}
+		}
+		listResult := listDetector.DetectFromParagraphs(listCandidates, width, height)
 		if listResult != nil {
 			for _, l := range listResult.Lists {
+				for _, item := range l.GetAllItems() {
+					listOf[item.ParaIndex] = len(lists)
+				}
 				listInfo := model.ListInfo{
 					Type:   convertListType(l.Type),
 					BBox:   model.BBox{X: l.BBox.X, Y: l.BBox.Y, Width: l.BBox.Width, Height: l.BBox.Height},
 					Nested: l.Level > 0, // Consider nested if level > 0
 				}
-				for _, item := range l.Items {
+				// nested items too (flattened, each with its level): their
+				// paragraphs are taken by this list
+				for _, item := range l.GetAllItems() {
 					listInfo.Items = append(listInfo.Items, model.ListItem{
 						Text:   item.Text,
 						Level:  item.Level,
 						Bullet: item.Prefix,
 					})
+					if item.Level > 0 {
+						listInfo.Nested = true
+					}
 				}
 				lists = append(lists, listInfo)
 			}
@@ -1725,26 +1747,29 @@ func (e *Extractor) Document() (*model.Document, []Warning, error) {
 			},
 		}
 
-		// Add elements to page
-		for _, h := range headings {
-			modelPage.AddElement(&model.Heading{
-				Level: h.Level,
-				Text:  h.Text,
-				BBox:  h.BBox,
-			})
-		}
-		for _, p := range paragraphs {
-			modelPage.AddElement(&model.Paragraph{
-				Text: p.Text,
-				BBox: p.BBox,
-			})
-		}
-		for _, l := range lists {
-			modelPage.AddElement(&model.List{
-				Items:   l.Items,
-				Ordered: l.Type == model.ListTypeNumbered || l.Type == model.ListTypeLettered || l.Type == model.ListTypeRoman,
-				BBox:    l.BBox,
-			})
+		// Add elements to page in paragraph (reading) order, each paragraph once:
+		// as the heading it is, as part of the list it belongs to (the list is
+		// added where its first item stands), or as a plain paragraph.
+		listDone := make([]bool, len(lists))
+		for pi, p := range paragraphs {
+			if hi, ok := headingOf[pi]; ok {
+				h := headings[hi]
+				modelPage.AddElement(&model.Heading{Level: h.Level, Text: h.Text, BBox: h.BBox})
+				continue
+			}
+			if li, ok := listOf[pi]; ok {
+				if !listDone[li] {
+					l := lists[li]
+					modelPage.AddElement(&model.List{
+						Items:   l.Items,
+						Ordered: l.Type == model.ListTypeNumbered || l.Type == model.ListTypeLettered || l.Type == model.ListTypeRoman,
+						BBox:    l.BBox,
+					})
+					listDone[li] = true
+				}
+				continue
+			}
+			modelPage.AddElement(&model.Paragraph{Text: p.Text, BBox: p.BBox})
 		}
 
 		doc.AddPage(modelPage)
